@@ -80,7 +80,7 @@ Proof.
     + destruct (r =? r_tfpdef G); intros H.
       * eapply K; [|exact H]. apply meass_one.
       * eapply K; [|exact H]. symmetry. apply meas_node.
-    + intros H. eapply K; [|exact H]. symmetry. apply meas_node.
+    + discriminate.
     + intros H. eapply K; [|exact H]. symmetry. apply meas_node.
 Qed.
 
@@ -121,8 +121,11 @@ Lemma convert_node_text r ns t : convert_node G r ns = POk t -> meas t = meass n
 Proof.
   unfold convert_node. destruct (r =? r_suite G).
   - destruct ns as [|c0 [|c1 rest]]; [discriminate|intros H; inversion H; rewrite meas_node; reflexivity|].
-    destruct (no_text c1 && match rev rest with [] => true | cl :: _ => no_text cl end) eqn:NT; [|discriminate].
-    apply andb_true_iff in NT as [N1 N2]. intros H; inversion H; subst. rewrite meas_node, !meass_cons, (no_text_nil _ N1). simpl. f_equal.
+    destruct (blank c1 && match rev rest with [] => true | cl :: _ => blank cl end) eqn:NT; [|discriminate].
+    apply andb_true_iff in NT as [N1 N2]. unfold blank in N1. apply andb_true_iff in N1 as [N1 _].
+    assert (N2': match rev rest with [] => true | cl :: _ => no_text cl end = true).
+    { destruct (rev rest) as [|cl rr]; [reflexivity|]. unfold blank in N2. apply andb_true_iff in N2 as [N2 _]. exact N2. }
+    clear N2. rename N2' into N2. intros H; inversion H; subst. rewrite meas_node, !meass_cons, (no_text_nil _ N1). simpl. f_equal.
     destruct (rev rest) as [|cl rr] eqn:RV.
     + apply (f_equal (@rev tree)) in RV. rewrite rev_involutive in RV. subst. reflexivity.
     + apply rev_head_last in RV. subst rest. rewrite removelast_last, meass_app, meass_one, (no_text_nil _ N2), app_nil_r. reflexivity.
